@@ -25,18 +25,20 @@ P = {
          "Every argument key carries a fresh payload; the model keeps the first inserted payload and explicit payload writes; every observation path must return it. Lookups are issued through &Key and the borrowed &u32 form and must address the same element.", "3 C12"),
  "C13": ("property-based testing of iterator call programs + differential testing of std adaptor compositions against Vec::into_iter",
          "iter/into_iter/drain/sorted iterators are driven by generated next/next_back/len/size_hint programs, and 23 adaptor compositions are compared (sequence, len, size_hint) with the same composition over the plain sequence.", "3 C13"),
+ "C14": ("property-based testing of equality over two independently generated routes to the same content + near-miss variants; lock-step clone differential",
+         "Two generated histories (different constructors, capacities, hasher types) are equalised to the same content S and must compare equal in both directions (reflexive, symmetric, transitive through a From<Vec>-built third queue), while near-miss variants (one priority, one item, exchanged priorities) must compare unequal; a clone must equal its source, return identical values under a lock-step continuation, and mutating it must leave the source untouched.", "3 C14"),
  "C15": ("round-trip property testing through three serde carriers (as same and other kind) + total deserialization of generated pair sequences",
          "Serialize/deserialize through JSON text, serde_json::Value and a SeqDeserializer, as the same and the other queue kind; the result must equal the original and pass all observations. Arbitrary pair sequences with duplicates must deserialize without panic into a consistent queue or an error.", "3 C15"),
  "C16": ("model-based stateful property testing of drain/clear with consumption programs, leaks, and continuation histories",
          "drain with generated front/back consumption, dropped or forgotten, and clear; the queue must be empty at once and every continuation must behave as on a fresh queue (reference model started from empty).", "3 C16"),
+ "C18": ("differential property testing across five BuildHasher configurations (incl. all-colliding) against a shared reference model",
+         "The same generated history is executed under RandomState (new()), a fixed hasher, a keyed RandomState via with_hasher, XxHash64 and an all-colliding hasher; each execution is checked against the model and the return-value traces must agree pairwise up to the choice among equal priorities.", "3 C18"),
  "C17": ("model-based stateful property testing with capacity operations interleaved; unsatisfiable try_reserve amounts",
          "Capacity ops are invisible to the reference model, so any influence on contents, extraction order or later results is a failure; capacity() lower bounds are asserted; unsatisfiable try_reserve must return Err without panic and leave the queue unchanged.", "3 C17"),
 }
 NOT_YET = {
  "C05": "check under construction in this round (comparison-count measurement); will be claimed when built",
  "C10": "check under construction in this round (fault-injection runner); will be claimed when built",
- "C14": "check under construction in this round (two-route equality runner); will be claimed when built",
- "C18": "check under construction in this round (multi-hasher differential runner); will be claimed when built",
 }
 checks = []
 for pid, (tech, text, ref) in sorted(P.items()):
